@@ -30,7 +30,9 @@
    S7 a result says "canceled" only if Cancel was called before the build ended.
    S8 a build starts only while a Rebuild is pending or after Watch was called.
    S9 Watch succeeds at most once, and fails only if Dispose was called before
-      its return or Watch has already succeeded. *)
+      its return, or Watch has already succeeded, or another Watch call is
+      pending at its return (of two overlapping Watch calls exactly one
+      succeeds: the one that fails may be observed to return first). *)
 From V Require Import Common.Base C20.CtxLTS.
 Local Close Scope Z_scope.
 Local Open Scope nat_scope.
@@ -83,6 +85,7 @@ Fixpoint remove_pend (c : nat) (l : list pinfo) : list pinfo :=
   | p :: r => if Nat.eqb (p_cid p) c then r else p :: remove_pend c r
   end.
 Definition rebuild_pending (l : list pinfo) : bool := existsb (fun p => op_eqb (p_op p) OpRebuild) l.
+Definition watch_pending (l : list pinfo) : bool := existsb (fun p => op_eqb (p_op p) OpWatch) l.
 
 Definition optnat_eqb (a b : option nat) : bool :=
   match a, b with Some x, Some y => Nat.eqb x y | None, None => true | _, _ => false end.
@@ -159,7 +162,8 @@ Definition mon_step (m : mon) (l : label) : option mon :=
                                (m_dispCalled m) (m_dispRet m) (m_watchCalled m) true (m_cancelCalled m) (m_edits m))
               else None
           | OpWatch, RvErr =>
-              if m_dispCalled m || m_watchOk m then Some (upd_pend m pend) else None        (* S9 *)
+              if m_dispCalled m || m_watchOk m || watch_pending pend                          (* S9 *)
+              then Some (upd_pend m pend) else None
           | _, _ => None
           end
       end
